@@ -302,33 +302,29 @@ Inductive action :=
 | AReconf (k : kind) (n : name)
 | ATerm (k : kind) (n : name).
 
-Definition target_actions (running : list (name * rcomp)) (p : name * lcomp) : list action :=
-  let '(n, lc) := p in
-  match alookup n running with
-  | Some r => if N.eqb (r_ty r) (lc_ty lc) then [AReconf KTarget n] else [ATerm KTarget n; ASpawn KTarget n]
-  | None => [ASpawn KTarget n]
-  end.
+(* the gate a component of the new configuration is started with: a unit
+   needs a pending gate (some section links to it), a target needs none *)
+Definition gate_for (k : kind) (pending : gates) (n : name) : option N :=
+  match k with KUnit => alookup n pending | KTarget => Some 0 end.
 
-Definition unit_actions (running : list (name * rcomp)) (pending : gates) (p : name * lcomp) : list action :=
+(* one iteration of the loops over config.targets / config.units *)
+Definition comp_actions (k : kind) (running : list (name * rcomp)) (pending : gates) (p : name * lcomp) : list action :=
   let '(n, lc) := p in
-  match alookup n pending with
-  | None => match alookup n running with Some _ => [ATerm KUnit n] | None => [] end   (* unused *)
+  match gate_for k pending n with
+  | None => match alookup n running with Some _ => [ATerm k n] | None => [] end   (* unused unit *)
   | Some _ =>
       match alookup n running with
-      | Some r => if N.eqb (r_ty r) (lc_ty lc) then [AReconf KUnit n] else [ATerm KUnit n; ASpawn KUnit n]
-      | None => [ASpawn KUnit n]
+      | Some r => if N.eqb (r_ty r) (lc_ty lc) then [AReconf k n] else [ATerm k n; ASpawn k n]
+      | None => [ASpawn k n]
       end
   end.
 
-Definition started_unit (pending : gates) (p : name * lcomp) : list (name * rcomp) :=
+Definition started (k : kind) (pending : gates) (p : name * lcomp) : list (name * rcomp) :=
   let '(n, lc) := p in
-  match alookup n pending with
+  match gate_for k pending n with
   | Some g => [(n, MkR (lc_ty lc) g (lc_cfg lc) (lc_links lc))]
   | None => []
   end.
-
-Definition started_target (p : name * lcomp) : name * rcomp :=
-  let '(n, lc) := p in (n, MkR (lc_ty lc) 0 (lc_cfg lc) (lc_links lc)).
 
 Definition gone (k : kind) (new_names : list name) (running : list (name * rcomp)) : list action :=
   map (fun p => ATerm k (fst p)) (filter (fun p => negb (mem (fst p) new_names)) running).
@@ -343,15 +339,16 @@ Definition spawned (k : kind) (acts : list action) : list name :=
 Definition track_clash (acts : list action) : bool :=
   existsb (fun n => mem n (spawned KTarget acts)) (spawned KUnit acts).
 
+Definition kind_actions (k : kind) (running : list (name * rcomp)) (pending : gates) (l : list (name * lcomp)) : list action :=
+  flat_map (comp_actions k running pending) l ++ gone k (names l) running.
+
 Definition spawn (m : mgr) (lc : lconfig) : list action * mgr :=
   let acts :=
-    flat_map (target_actions (m_targets m)) (l_targets lc)
-    ++ flat_map (unit_actions (m_units m) (m_pending m)) (l_units lc)
-    ++ gone KUnit (names (l_units lc)) (m_units m)
-    ++ gone KTarget (names (l_targets lc)) (m_targets m) in
+    kind_actions KTarget (m_targets m) (m_pending m) (l_targets lc)
+    ++ kind_actions KUnit (m_units m) (m_pending m) (l_units lc) in
   (acts,
-   MkM (flat_map (started_unit (m_pending m)) (l_units lc))
-       (map started_target (l_targets lc))
+   MkM (flat_map (started KUnit (m_pending m)) (l_units lc))
+       (flat_map (started KTarget (m_pending m)) (l_targets lc))
        (filter (fun p => negb (mem (fst p) (names (l_units lc)))) (m_pending m))
        (m_gates m) (m_gen m)).
 
@@ -441,4 +438,50 @@ Definition running_type (l : list (name * rcomp)) (n : name) : option N := optio
 
 (* no generated or user-chosen unit name is also a target name *)
 Definition names_apart (d : doc) : bool :=
-  forallb (fun n => negb (mem n (names (d_targets d)))) (names (d_units (expand d))).
+  forallb (fun n => negb (mem n (names (d_targets (expand d))))) (names (d_units (expand d))).
+
+(* the actions of one kind are exactly the difference between what ran
+   before and what runs after *)
+Definition exact_actions (k : kind) (before after : list (name * rcomp)) (acts : list action) : Prop :=
+  forall n,
+    (In (ASpawn k n) acts <-> exists r, In (n, r) after /\ running_type before n <> Some (r_ty r)) /\
+    (In (AReconf k n) acts <-> exists r, In (n, r) after /\ running_type before n = Some (r_ty r)) /\
+    (In (ATerm k n) acts <->
+       In n (names before) /\
+       (~ In n (names after) \/ exists r, In (n, r) after /\ running_type before n <> Some (r_ty r))).
+
+(* ---------- witnesses used by the refutation lemmas ---------- *)
+Definition u (k : N) : name := (k, None).
+Definition src_unit (ty : N) : comp := MkComp ty SNone true 0 7 None.
+Definition null_out (s : srcs) : comp := MkComp 2 s true 0 0 None.
+
+(* sources = 3 in a filter unit *)
+Definition wit_bad_sources : doc :=
+  MkDoc true true [(u 1, src_unit 1); (u 2, MkComp 2 SBad true 0 7 None)] [(u 11, null_out (SOne (u 1)))].
+(* a rib unit whose source does not exist, followed by a unit of unknown type *)
+Definition wit_fails_in_deser : doc :=
+  MkDoc true true [(u 1, src_unit 1); (u 2, MkComp 3 (SMany [Some (u 9)]) true 0 1 None); (u 3, src_unit 9)]
+        [(u 11, null_out (SOne (u 1)))].
+Definition wit_small_valid : doc :=
+  MkDoc true true [(u 1, src_unit 1)] [(u 11, null_out (SOne (u 1)))].
+(* a target with one unresolved source among resolved ones *)
+Definition wit_unresolved : doc :=
+  MkDoc true true [(u 1, src_unit 1); (u 2, src_unit 1); (u 3, src_unit 1)]
+        [(u 11, null_out (SMany [Some (u 1); Some (u 2); Some (u 3); Some (u 9)]))].
+Definition wit_two_unused : doc :=
+  MkDoc true true [(u 1, src_unit 1); (u 2, src_unit 1); (u 3, src_unit 1)]
+        [(u 11, null_out (SMany [Some (u 1)]))].
+(* a unit and a target both called 1 *)
+Definition wit_same_name : doc :=
+  MkDoc true true [(u 1, src_unit 1)] [(u 1, null_out (SOne (u 1)))].
+(* unit 1 is consumed only by filter 2, which nothing consumes *)
+Definition wit_chain_unused : doc :=
+  MkDoc true true [(u 1, src_unit 1); (u 2, MkComp 2 (SMany [Some (u 1)]) true 0 1 None); (u 3, src_unit 1)]
+        [(u 11, null_out (SOne (u 3)))].
+(* a pipeline with a shorthand rib: bmp -> rib with 3 filters -> filter -> null / file / mqtt *)
+Definition wit_pipeline : doc :=
+  MkDoc true true
+        [(u 1, src_unit 1); (u 2, MkComp 3 (SMany [Some (u 1)]) true 3 4 None);
+         (u 3, MkComp 2 (SMany [Some (u 2)]) true 0 1 None); (u 4, src_unit 4)]
+        [(u 11, null_out (SOne (u 2))); (u 12, MkComp 0 (SOne (u 3)) true 0 5 None);
+         (u 13, MkComp 1 (SMany [Some (u 2); Some (u 3)]) true 0 6 None)].
